@@ -69,114 +69,483 @@ theorem data_roundtrip (v : Nat) (hv : 1 ≤ v ∧ v ≤ 5) (d : DataO) (hj : v 
       loadData1, projectData]
     exact ⟨tupleJoins_roundtrip d.joins, by cases d.uuid <;> rfl⟩
 
+/-! ## generic: what `mapM` tells about the elements -/
+
+theorem mapM_map_eq {α β γ : Type} (f : α → Option β) (g : β → γ) (h : α → γ) :
+    ∀ (l : List α) (bs : List β), (∀ a ∈ l, ∀ b, f a = some b → g b = h a) →
+    l.mapM f = some bs → bs.map g = l.map h := by
+  intro l
+  induction l with
+  | nil => intro bs _ hbs; simp at hbs; subst hbs; rfl
+  | cons a r ih =>
+    intro bs hf hbs
+    simp only [List.mapM_cons] at hbs
+    cases hfa : f a with
+    | none => simp [hfa] at hbs
+    | some b =>
+      cases hr : r.mapM f with
+      | none => simp [hfa, hr] at hbs
+      | some bs' =>
+        simp [hfa, hr] at hbs
+        subst hbs
+        simp only [List.map_cons, hf a List.mem_cons_self b hfa,
+          ih bs' (fun x hx => hf x (List.mem_cons_of_mem _ hx)) hr]
+
+theorem mapM_none_of_mem {α β : Type} (f : α → Option β) :
+    ∀ (l : List α) (a : α), a ∈ l → f a = none → l.mapM f = none := by
+  intro l
+  induction l with
+  | nil => intro a ha; cases ha
+  | cons x r ih =>
+    intro a ha hfa
+    simp only [List.mapM_cons]
+    cases hx : f x with
+    | none => rfl
+    | some b =>
+      rcases List.mem_cons.mp ha with rfl | hr
+      · simp [hfa] at hx
+      · simp [ih a hr hfa]
+
+theorem saveData_protocol (v : Nat) (d : DataO) (r : DataRec) (h : saveData v d = some r) :
+    r.protocol = v := by
+  unfold saveData at h
+  split at h
+  · cases h; rfl
+  · cases h; rfl
+  · simp only [saveData3] at h
+    cases hj : d.joins.mapM saveJoin3 with
+    | none => simp [hj] at h
+    | some js => simp [hj] at h; subst h; rfl
+  · cases h; rfl
+  · cases h; rfl
+  · cases h
+
 /-! ## links -/
 
-theorem externalOf_derived : ∀ (i : Nat) (ds : List DataO), externalOf (derivedLinksFrom i ds) = [] := by
+/-- the links of the derived components of datasets `i, i+1, …` -/
+def derLinksFrom : Nat → List DataO → List CLink
+  | _, [] => []
+  | i, d :: r => d.derived.map (·.link i) ++ derLinksFrom (i + 1) r
+
+theorem loadedLinks_links (ls : List CLink) : loadedLinks (ls.map LinkRec.link) = some ls := by
+  induction ls with
+  | nil => rfl
+  | cons l r ih => simp [loadedLinks, ih]
+
+theorem loadedLinks_append (a b : List LinkRec) (x y : List CLink)
+    (ha : loadedLinks a = some x) (hb : loadedLinks b = some y) :
+    loadedLinks (a ++ b) = some (x ++ y) := by
+  induction a generalizing x with
+  | nil => simp [loadedLinks] at ha; subst ha; simpa using hb
+  | cons l r ih =>
+    cases l with
+    | coord i p => simp only [List.cons_append, loadedLinks] at ha ⊢; exact ih x ha
+    | link l =>
+      simp only [List.cons_append, loadedLinks] at ha ⊢
+      cases hr : loadedLinks r with
+      | none => simp [hr] at ha
+      | some x' =>
+        simp [hr] at ha
+        subst ha
+        simp [ih x' hr]
+    | helper e => simp [loadedLinks] at ha
+
+theorem loadedLinks_dataLinks (i : Nat) (d : DataO) :
+    loadedLinks (dataLinks i d) = some (d.derived.map (·.link i)) := by
+  unfold dataLinks
+  have h := loadedLinks_links (d.derived.map (·.link i))
+  simp only [List.map_map] at h
+  cases d.coords with
+  | false => simpa [Function.comp_def] using h
+  | true => simpa [loadedLinks, Function.comp_def] using h
+
+theorem loadedLinks_dataLinksFrom : ∀ (i : Nat) (ds : List DataO),
+    loadedLinks (dataLinksFrom i ds) = some (derLinksFrom i ds) := by
   intro i ds
   induction ds generalizing i with
   | nil => rfl
   | cons d r ih =>
-    simp only [derivedLinksFrom, externalOf, List.filterMap_append, List.filterMap_map] at ih ⊢
-    rw [ih (i + 1)]
-    simp only [List.append_nil]
-    induction d.derived with
-    | nil => rfl
-    | cons x xs ihx => simp
+    simp only [dataLinksFrom, derLinksFrom]
+    exact loadedLinks_append _ _ _ _ (loadedLinks_dataLinks i d) (ih (i + 1))
 
-theorem externalOf_same (ls : List Link) : externalOf (ls.map LinkRec.same) = ls := by
-  induction ls with
-  | nil => rfl
-  | cons l r ih => simp only [externalOf, List.map_cons, List.filterMap_cons] at ih ⊢; rw [ih]
+theorem loadedLinks_allLinks (dc : DCO) :
+    loadedLinks (allLinks dc) = some (derLinksFrom 0 dc.data ++ dc.links.flatMap Ext.flatten) :=
+  loadedLinks_append _ _ _ _ (loadedLinks_dataLinksFrom 0 dc.data) (loadedLinks_links _)
 
-theorem externalOf_allLinks (dc : DCO) : externalOf (allLinks dc) = dc.links := by
-  simp only [allLinks]
-  have := externalOf_derived 0 dc.data
-  simp only [externalOf, List.filterMap_append] at this ⊢
-  rw [this]
-  simpa [externalOf] using externalOf_same dc.links
+/-- the link of a derived component never crosses datasets -/
+theorem crossing_der (i : Nat) (der : Der) : crossing (der.link i) = false := by
+  cases der <;> simp [Der.link, crossing]
 
-theorem keepFrom_all (ls : List LinkRec) (f : DataO → DataO) (hf : ∀ d, (f d).derived = d.derived) :
-    ∀ (i : Nat) (ds : List DataO), (∀ x ∈ derivedLinksFrom i ds, x ∈ ls) →
-    keepFrom ls i (ds.map f) = ds.map f := by
+theorem crossing_derLinksFrom : ∀ (i : Nat) (ds : List DataO), ∀ l ∈ derLinksFrom i ds, crossing l = false := by
+  intro i ds
+  induction ds generalizing i with
+  | nil => intro l hl; cases hl
+  | cons d r ih =>
+    intro l hl
+    simp only [derLinksFrom, List.mem_append, List.mem_map] at hl
+    rcases hl with ⟨der, _, rfl⟩ | hr
+    · exact crossing_der i der
+    · exact ih (i + 1) l hr
+
+theorem filter_crossing_split (D F : List CLink) (hD : ∀ l ∈ D, crossing l = false)
+    (hF : ∀ l ∈ F, crossing l = true) :
+    (D ++ F).filter crossing = F ∧ (D ++ F).filter (fun l => !crossing l) = D := by
+  refine ⟨?_, ?_⟩
+  · rw [List.filter_append, List.filter_eq_nil_iff.mpr (by intro l hl; simp [hD l hl]),
+      List.filter_eq_self.mpr hF, List.nil_append]
+  · rw [List.filter_append, List.filter_eq_self.mpr (by intro l hl; simp [hD l hl]),
+      List.filter_eq_nil_iff.mpr (by intro l hl; simp [hF l hl]), List.append_nil]
+
+theorem keepFrom_all (internal : List CLink) :
+    ∀ (i : Nat) (ds : List DataO), (∀ x ∈ derLinksFrom i ds, x ∈ internal) →
+    keepFrom internal i ds = ds := by
   intro i ds
   induction ds generalizing i with
   | nil => intro _; rfl
   | cons d r ih =>
     intro hall
-    simp only [List.map_cons, keepFrom]
+    simp only [keepFrom]
     congr 1
     · simp only [keepInternal]
-      have : (f d).derived.filter (fun der => ls.contains (LinkRec.derived i der.label)) = (f d).derived := by
+      have : d.derived.filter (fun der => internal.contains (der.link i)) = d.derived := by
         apply List.filter_eq_self.mpr
         intro der hder
-        rw [hf d] at hder
-        have : LinkRec.derived i der.label ∈ ls := by
+        have : der.link i ∈ internal := by
           apply hall
-          simp only [derivedLinksFrom, List.mem_append, List.mem_map]
+          simp only [derLinksFrom, List.mem_append, List.mem_map]
           exact Or.inl ⟨der, hder, rfl⟩
         simpa using this
       rw [this]
     · apply ih (i + 1)
       intro x hx
       apply hall
-      simp only [derivedLinksFrom, List.mem_append]
+      simp only [derLinksFrom, List.mem_append]
       exact Or.inr hx
 
-theorem projectData_derived (v : Nat) (d : DataO) : (projectData v d).derived = d.derived := rfl
+theorem derLinksFrom_projectDatas : ∀ (ds : List DataO) (dvs : List Nat) (i : Nat),
+    dvs.length = ds.length → derLinksFrom i (projectDatas dvs ds) = derLinksFrom i ds := by
+  intro ds
+  induction ds with
+  | nil => intro dvs i _; cases dvs <;> rfl
+  | cons d r ih =>
+    intro dvs i hlen
+    cases dvs with
+    | nil => cases hlen
+    | cons v vs =>
+      have hl : vs.length = r.length := by simpa using hlen
+      have := ih vs (i + 1) hl
+      simp only [projectDatas] at this
+      simp only [projectDatas, List.zip_cons_cons, List.map_cons, derLinksFrom, this]
+      rfl
+
+theorem loadedExt_extRec (ls : List Ext) : loadedExt (ls.map extRec) = some ls := by
+  induction ls with
+  | nil => rfl
+  | cons e r ih => cases e <;> simp [extRec, loadedExt, ih]
 
 /-! ## DataCollection -/
 
-/-- objects the pair (cv, dv) can represent, as a proposition -/
-def Representable (cv dv : Nat) (dc : DCO) : Prop :=
-  (dv = 3 → ∀ d ∈ dc.data, singleJoins d) ∧ (cv = 1 → dc.groups = [])
+/-- objects the assignment (cv, dvs) can represent, as a proposition -/
+structure Representable (cv : Nat) (dvs : List Nat) (dc : DCO) : Prop where
+  len : dvs.length = dc.data.length
+  joins : ∀ p ∈ dc.data.zip dvs, p.2 = 3 → singleJoins p.1
+  groups : cv = 1 → dc.groups = []
+  cross : cv ≤ 3 → ∀ l ∈ dc.links.flatMap Ext.flatten, crossing l = true
 
-theorem dc_roundtrip (cv dv : Nat) (hc : 1 ≤ cv ∧ cv ≤ 4) (hd : 1 ≤ dv ∧ dv ≤ 5) (dc : DCO)
-    (hrep : Representable cv dv dc) :
-    ∃ r, saveDC cv dv dc = some r ∧ loadDC r = some (projectDC cv dv dc) := by
-  obtain ⟨rs, hs, hl⟩ := mapM_roundtrip (saveData dv) loadData (projectData dv) dc.data
-    (fun d hdm => data_roundtrip dv hd d (fun h3 => hrep.1 h3 d hdm))
-  have hkeep : keepFrom (allLinks dc) 0 (dc.data.map (projectData dv)) = dc.data.map (projectData dv) :=
-    keepFrom_all _ _ (projectData_derived dv) 0 dc.data (by
-      intro x hx
-      simp only [allLinks, List.mem_append]
-      exact Or.inl hx)
-  have hext := externalOf_allLinks dc
+theorem datas_roundtrip (dvs : List Nat) (hd : ∀ v ∈ dvs, 1 ≤ v ∧ v ≤ 5) (ds : List DataO)
+    (hlen : dvs.length = ds.length) (hj : ∀ p ∈ ds.zip dvs, p.2 = 3 → singleJoins p.1) :
+    ∃ rs, saveDatas dvs ds = some rs ∧ rs.map (·.protocol) = dvs ∧
+      rs.mapM loadData = some (projectDatas dvs ds) := by
+  obtain ⟨rs, hs, hl⟩ := mapM_roundtrip (fun p : DataO × Nat => saveData p.2 p.1) loadData
+    (fun p => projectData p.2 p.1) (ds.zip dvs)
+    (fun p hp => data_roundtrip p.2 (hd p.2 (List.of_mem_zip hp).2) p.1 (hj p hp))
+  refine ⟨rs, ?_, ?_, hl⟩
+  · simp [saveDatas, hlen, hs]
+  · have := mapM_map_eq (fun p : DataO × Nat => saveData p.2 p.1) (·.protocol) (·.2)
+      (ds.zip dvs) rs (fun p _ r h => saveData_protocol p.2 p.1 r h) hs
+    rw [this]
+    exact List.map_snd_zip (by omega)
+
+theorem dc_roundtrip (cv : Nat) (dvs : List Nat) (hc : 1 ≤ cv ∧ cv ≤ 4)
+    (hd : ∀ v ∈ dvs, 1 ≤ v ∧ v ≤ 5) (dc : DCO) (hrep : Representable cv dvs dc) :
+    ∃ r, saveDC cv dvs dc = some r ∧ r.protocol = cv ∧ r.data.map (·.protocol) = dvs ∧
+      loadDC r = some (projectDC cv dvs dc) := by
+  obtain ⟨rs, hs, hp, hl⟩ := datas_roundtrip dvs hd dc.data hrep.len hrep.joins
+  have hll := loadedLinks_allLinks dc
+  have hkeep : keepFrom (derLinksFrom 0 dc.data) 0 (projectDatas dvs dc.data) = projectDatas dvs dc.data :=
+    keepFrom_all _ 0 _ (by
+      rw [derLinksFrom_projectDatas dc.data dvs 0 hrep.len]
+      intro x hx; exact hx)
   obtain ⟨h1, h4⟩ := hc
   have : cv = 1 ∨ cv = 2 ∨ cv = 3 ∨ cv = 4 := by omega
   rcases this with rfl | rfl | rfl | rfl
-  · refine ⟨{ protocol := 1, data := rs, links := allLinks dc, groups := none, sgCount := none }, ?_, ?_⟩
+  · obtain ⟨hE, hI⟩ := filter_crossing_split _ _ (crossing_derLinksFrom 0 dc.data) (hrep.cross (by omega))
+    refine ⟨{ protocol := 1, data := rs, links := allLinks dc, groups := none, sgCount := none }, ?_, rfl, hp, ?_⟩
     · simp [saveDC, saveDC1, hs]
-    · simp [loadDC, loadDC1, hl, hkeep, hext, projectDC]
-  · refine ⟨{ protocol := 2, data := rs, links := allLinks dc, groups := some dc.groups, sgCount := none }, ?_, ?_⟩
+    · simp [loadDC, assembleDC, assembleDC1, hl, hll, hE, hI, hkeep, projectDC]
+  · obtain ⟨hE, hI⟩ := filter_crossing_split _ _ (crossing_derLinksFrom 0 dc.data) (hrep.cross (by omega))
+    refine ⟨{ protocol := 2, data := rs, links := allLinks dc, groups := some dc.groups, sgCount := none }, ?_, rfl, hp, ?_⟩
     · simp [saveDC, saveDC2, saveDC1, hs]
-    · simp [loadDC, loadDC2, loadDCgrouped, hl, hkeep, hext, projectDC]
-  · refine ⟨{ protocol := 3, data := rs, links := allLinks dc, groups := some dc.groups,
-              sgCount := some dc.sgCount }, ?_, ?_⟩
+    · simp [loadDC, assembleDC, assembleDC2, assembleDCgrouped, hl, hll, hE, hI, hkeep, projectDC]
+  · obtain ⟨hE, hI⟩ := filter_crossing_split _ _ (crossing_derLinksFrom 0 dc.data) (hrep.cross (by omega))
+    refine ⟨{ protocol := 3, data := rs, links := allLinks dc, groups := some dc.groups,
+              sgCount := some dc.sgCount }, ?_, rfl, hp, ?_⟩
     · simp [saveDC, saveDC3, saveDC2, saveDC1, hs]
-    · simp [loadDC, loadDC3, loadDC2, loadDCgrouped, hl, hkeep, hext, projectDC]
-  · refine ⟨{ protocol := 4, data := rs, links := dc.links.map LinkRec.same, groups := some dc.groups,
-              sgCount := some dc.sgCount }, ?_, ?_⟩
+    · simp [loadDC, assembleDC, assembleDC3, assembleDC2, assembleDCgrouped, hl, hll, hE, hI, hkeep, projectDC]
+  · refine ⟨{ protocol := 4, data := rs, links := dc.links.map extRec, groups := some dc.groups,
+              sgCount := some dc.sgCount }, ?_, rfl, hp, ?_⟩
     · simp [saveDC, saveDC4, hs]
-    · simp [loadDC, loadDC4, hl, externalOf_same, projectDC]
+    · simp [loadDC, assembleDC, assembleDC4, hl, loadedExt_extRec, projectDC]
 
-theorem representable_spec (cv dv : Nat) (dc : DCO) (h : representable cv dv dc = true) :
-    Representable cv dv dc := by
+theorem representable_spec (cv : Nat) (dvs : List Nat) (dc : DCO) (h : representable cv dvs dc = true) :
+    Representable cv dvs dc := by
   simp only [representable, Bool.and_eq_true, Bool.or_eq_true, bne_iff_ne, ne_eq,
     List.all_eq_true, beq_iff_eq] at h
-  refine ⟨?_, ?_⟩
-  · intro h3 d hdm j hj
-    cases h.1 with
+  obtain ⟨⟨⟨hlen, hj⟩, hg⟩, hx⟩ := h
+  refine ⟨hlen, ?_, ?_, ?_⟩
+  · intro p hp h3 j hjm
+    cases hj p hp with
     | inl hne => exact absurd h3 hne
     | inr hall =>
-      obtain ⟨ho, ht⟩ := hall d hdm j hj
-      have ho' : ∃ a, j.own = [a] := List.length_eq_one_iff.mp ho
-      have ht' : ∃ b, j.theirs = [b] := List.length_eq_one_iff.mp ht
-      obtain ⟨a, ha⟩ := ho'
-      obtain ⟨b, hb⟩ := ht'
+      obtain ⟨ho, ht⟩ := hall j hjm
+      obtain ⟨a, ha⟩ := List.length_eq_one_iff.mp ho
+      obtain ⟨b, hb⟩ := List.length_eq_one_iff.mp ht
       exact ⟨a, b, ha, hb⟩
   · intro h1
-    have := h.2
-    simp only [h1, if_true, List.isEmpty_iff] at this
-    exact this
+    simp only [h1, if_true, List.isEmpty_iff] at hg
+    exact hg
+  · intro h3 l hl
+    simp only [h3, if_true, List.all_eq_true] at hx
+    exact hx l hl
+
+/-! ## the unserializer state machine loads record-wise -/
+
+/-- every memoised object is what the loader of its record's own protocol returns -/
+def CtxInv (doc : Doc) (c : Ctx) : Prop :=
+  (∀ k i d, c.datas.lookup (k, i) = some d →
+    ∃ r dr, doc[k]? = some r ∧ r.data[i]? = some dr ∧ loadData dr = some d) ∧
+  (∀ k x, c.colls.lookup k = some x → ∃ r, doc[k]? = some r ∧ loadDC r = some x)
+
+theorem ctxInv_empty (doc : Doc) : CtxInv doc Ctx.empty :=
+  ⟨fun _ _ _ h => by simp [Ctx.empty] at h, fun _ _ h => by simp [Ctx.empty] at h⟩
+
+theorem objectData_spec (doc : Doc) (c : Ctx) (k i : Nat) (r : DCRec) (dr : DataRec)
+    (hinv : CtxInv doc c) (hr : doc[k]? = some r) (hdr : r.data[i]? = some dr) :
+    match c.objectData k i dr with
+    | some (c', d) => CtxInv doc c' ∧ loadData dr = some d
+    | none => loadData dr = none := by
+  cases hl : c.datas.lookup (k, i) with
+  | some d =>
+    obtain ⟨r', dr', h1, h2, h3⟩ := hinv.1 k i d hl
+    rw [hr] at h1; cases h1
+    rw [hdr] at h2; cases h2
+    simp only [Ctx.objectData, hl]
+    exact ⟨hinv, h3⟩
+  | none =>
+    cases hd : loadData dr with
+    | none => simp only [Ctx.objectData, hl, hd]
+    | some d =>
+      simp only [Ctx.objectData, hl, hd]
+      refine ⟨⟨?_, hinv.2⟩, trivial⟩
+      intro k' i' d' hl'
+      simp only [List.lookup_cons] at hl'
+      split at hl'
+      · rename_i heq
+        have : (k', i') = (k, i) := by simpa using heq
+        cases this; cases hl'
+        exact ⟨r, dr, hr, hdr, hd⟩
+      · exact hinv.1 k' i' d' hl'
+
+theorem objectDatas_spec (doc : Doc) (k : Nat) (r : DCRec) (hr : doc[k]? = some r) :
+    ∀ (ps : List (DataRec × Nat)) (c : Ctx), CtxInv doc c → (∀ p ∈ ps, r.data[p.2]? = some p.1) →
+    match Ctx.objectDatas k c ps with
+    | some (c', ds) => CtxInv doc c' ∧ (ps.map (·.1)).mapM loadData = some ds
+    | none => (ps.map (·.1)).mapM loadData = none := by
+  intro ps
+  induction ps with
+  | nil => intro c hinv _; exact ⟨hinv, rfl⟩
+  | cons p rest ih =>
+    intro c hinv hall
+    obtain ⟨dr, i⟩ := p
+    have h1 := objectData_spec doc c k i r dr hinv hr (hall (dr, i) List.mem_cons_self)
+    cases ho : c.objectData k i dr with
+    | none =>
+      rw [ho] at h1
+      simp only [Ctx.objectDatas, ho, List.map_cons, List.mapM_cons]
+      simp [h1]
+    | some res =>
+      obtain ⟨c1, d⟩ := res
+      rw [ho] at h1
+      obtain ⟨hinv1, hd⟩ := h1
+      have h2 := ih c1 hinv1 (fun p hp => hall p (List.mem_cons_of_mem _ hp))
+      cases hos : Ctx.objectDatas k c1 rest with
+      | none =>
+        rw [hos] at h2
+        simp only [Ctx.objectDatas, ho, hos, List.map_cons, List.mapM_cons]
+        simp [hd, h2]
+      | some res2 =>
+        obtain ⟨c2, ds⟩ := res2
+        rw [hos] at h2
+        simp only [Ctx.objectDatas, ho, hos, List.map_cons, List.mapM_cons]
+        refine ⟨h2.1, ?_⟩
+        simp [hd, h2.2]
+
+theorem objectColl_spec (doc : Doc) (c : Ctx) (k : Nat) (r : DCRec)
+    (hinv : CtxInv doc c) (hr : doc[k]? = some r) :
+    match c.objectColl k r with
+    | some (c', x) => CtxInv doc c' ∧ loadDC r = some x
+    | none => loadDC r = none := by
+  cases hl : c.colls.lookup k with
+  | some x =>
+    obtain ⟨r', h1, h2⟩ := hinv.2 k x hl
+    rw [hr] at h1; cases h1
+    simp only [Ctx.objectColl, hl]
+    exact ⟨hinv, h2⟩
+  | none =>
+    have h1 := objectDatas_spec doc k r hr r.data.zipIdx c hinv
+      (fun p hp => List.mem_zipIdx_iff_getElem?.mp hp)
+    rw [List.zipIdx_map_fst] at h1
+    cases hos : Ctx.objectDatas k c r.data.zipIdx with
+    | none =>
+      rw [hos] at h1
+      simp only [Ctx.objectColl, hl, hos]
+      simp [loadDC, h1]
+    | some res =>
+      obtain ⟨c1, ds⟩ := res
+      rw [hos] at h1
+      obtain ⟨hinv1, hds⟩ := h1
+      cases ha : assembleDC r ds with
+      | none =>
+        simp only [Ctx.objectColl, hl, hos, ha]
+        simp [loadDC, hds, ha]
+      | some x =>
+        simp only [Ctx.objectColl, hl, hos, ha]
+        have hx : loadDC r = some x := by simp [loadDC, hds, ha]
+        refine ⟨⟨hinv1.1, ?_⟩, hx⟩
+        intro k' x' hl'
+        simp only [List.lookup_cons] at hl'
+        split at hl'
+        · rename_i heq
+          have : k' = k := by simpa using heq
+          cases this; cases hl'
+          exact ⟨r, hr, hx⟩
+        · exact hinv1.2 k' x' hl'
+
+theorem objectColls_spec (doc : Doc) :
+    ∀ (ps : List (DCRec × Nat)) (c : Ctx), CtxInv doc c → (∀ p ∈ ps, doc[p.2]? = some p.1) →
+    match Ctx.objectColls c ps with
+    | some (c', xs) => CtxInv doc c' ∧ (ps.map (·.1)).mapM loadDC = some xs
+    | none => (ps.map (·.1)).mapM loadDC = none := by
+  intro ps
+  induction ps with
+  | nil => intro c hinv _; exact ⟨hinv, rfl⟩
+  | cons p rest ih =>
+    intro c hinv hall
+    obtain ⟨r, k⟩ := p
+    have h1 := objectColl_spec doc c k r hinv (hall (r, k) List.mem_cons_self)
+    cases ho : c.objectColl k r with
+    | none =>
+      rw [ho] at h1
+      simp only [Ctx.objectColls, ho, List.map_cons, List.mapM_cons]
+      simp [h1]
+    | some res =>
+      obtain ⟨c1, x⟩ := res
+      rw [ho] at h1
+      obtain ⟨hinv1, hx⟩ := h1
+      have h2 := ih c1 hinv1 (fun p hp => hall p (List.mem_cons_of_mem _ hp))
+      cases hos : Ctx.objectColls c1 rest with
+      | none =>
+        rw [hos] at h2
+        simp only [Ctx.objectColls, ho, hos, List.map_cons, List.mapM_cons]
+        simp [hx, h2]
+      | some res2 =>
+        obtain ⟨c2, xs⟩ := res2
+        rw [hos] at h2
+        simp only [Ctx.objectColls, ho, hos, List.map_cons, List.mapM_cons]
+        refine ⟨h2.1, ?_⟩
+        simp [hx, h2.2]
+
+theorem loadDC_none_of_data (r : DCRec) (dr : DataRec) (hm : dr ∈ r.data) (h : loadData dr = none) :
+    loadDC r = none := by
+  simp [loadDC, mapM_none_of_mem loadData r.data dr hm h]
+
+theorem request_spec (doc : Doc) (c : Ctx) (q : Req) (hinv : CtxInv doc c) (hv : q.valid doc) :
+    match c.request doc q with
+    | some c' => CtxInv doc c'
+    | none => doc.mapM loadDC = none := by
+  cases q with
+  | data k i =>
+    obtain ⟨r, hr, hi⟩ := hv
+    have hdr : r.data[i]? = some r.data[i] := List.getElem?_eq_getElem hi
+    have h1 := objectData_spec doc c k i r r.data[i] hinv hr hdr
+    cases ho : c.objectData k i r.data[i] with
+    | none =>
+      rw [ho] at h1
+      simp only [Ctx.request, hr, hdr, ho, Option.map_none]
+      exact mapM_none_of_mem loadDC doc r (List.mem_of_getElem? hr)
+        (loadDC_none_of_data r _ (List.getElem_mem hi) h1)
+    | some res =>
+      rw [ho] at h1
+      simp only [Ctx.request, hr, hdr, ho, Option.map_some]
+      exact h1.1
+  | coll k =>
+    have hk : k < doc.length := hv
+    have hr : doc[k]? = some doc[k] := List.getElem?_eq_getElem hk
+    have h1 := objectColl_spec doc c k doc[k] hinv hr
+    cases ho : c.objectColl k doc[k] with
+    | none =>
+      rw [ho] at h1
+      simp only [Ctx.request, hr, ho, Option.map_none]
+      exact mapM_none_of_mem loadDC doc _ (List.getElem_mem hk) h1
+    | some res =>
+      rw [ho] at h1
+      simp only [Ctx.request, hr, ho, Option.map_some]
+      exact h1.1
+
+theorem requests_spec (doc : Doc) :
+    ∀ (reqs : List Req) (c : Ctx), CtxInv doc c → (∀ q ∈ reqs, q.valid doc) →
+    match Ctx.requests doc c reqs with
+    | some c' => CtxInv doc c'
+    | none => doc.mapM loadDC = none := by
+  intro reqs
+  induction reqs with
+  | nil => intro c hinv _; exact hinv
+  | cons q qs ih =>
+    intro c hinv hall
+    have h1 := request_spec doc c q hinv (hall q List.mem_cons_self)
+    cases ho : c.request doc q with
+    | none =>
+      rw [ho] at h1
+      simp only [Ctx.requests, ho]
+      exact h1
+    | some c1 =>
+      rw [ho] at h1
+      simp only [Ctx.requests, ho]
+      exact ih c1 h1 (fun q hq => hall q (List.mem_cons_of_mem _ hq))
+
+/-- whatever the caller asked for before, and in whatever order, `object('__main__')` returns what
+record-wise loading returns -/
+theorem run_eq_mapM (doc : Doc) (reqs : List Req) (hv : ∀ q ∈ reqs, q.valid doc) :
+    Unser.run doc reqs = doc.mapM loadDC := by
+  have h1 := requests_spec doc reqs Ctx.empty (ctxInv_empty doc) hv
+  cases ho : Ctx.requests doc Ctx.empty reqs with
+  | none =>
+    rw [ho] at h1
+    simp only [Unser.run, ho]
+    exact h1.symm
+  | some c =>
+    rw [ho] at h1
+    have h2 := objectColls_spec doc doc.zipIdx c h1 (fun p hp => List.mem_zipIdx_iff_getElem?.mp hp)
+    rw [List.zipIdx_map_fst] at h2
+    cases hos : Ctx.objectColls c doc.zipIdx with
+    | none =>
+      rw [hos] at h2
+      simp only [Unser.run, ho, hos, Option.map_none]
+      exact h2.symm
+    | some res =>
+      obtain ⟨c2, xs⟩ := res
+      rw [hos] at h2
+      simp only [Unser.run, ho, hos, Option.map_some]
+      exact h2.2.symm
 
 end GlueVerif.C12.Records.Lemmas
